@@ -1,4 +1,5 @@
 import Uft.Model.Script
+import Uft.Model.Fstack
 /- Lemmas for C18 (Props/C18.lean): the two main loops step by step, the per-task
    projection of the callback stream, and the pairing invariant. -/
 set_option linter.unusedSimpArgs false
@@ -403,7 +404,7 @@ theorem exit_step (cfg : Cfg) (i : Nat) (st : TaskSt) (af : AF) (rest : List AF)
     have hne : k ≠ rest.length := by omega
     simp [accountSlots, hx, hsc, setSlot, hne, hss]
   have h1top : ((consume cfg st r).slots rest.length).norecord = !af.acc ∧
-      ((consume cfg st r).slots rest.length).total = r.time - af.time := by
+      ((consume cfg st r).slots rest.length).total = sub64 r.time af.time := by
     show (lookupL _ (accountSlots (startCount st r) (startSlots st r) r) rest.length).norecord = _ ∧
       (lookupL _ (accountSlots (startCount st r) (startSlots st r) r) rest.length).total = _
     rw [lookupL_range]
@@ -475,7 +476,7 @@ theorem exit_step (cfg : Cfg) (i : Nat) (st : TaskSt) (af : AF) (rest : List AF)
       have hds : st.dispSet = true := inv.dset (by simp [anyAcc, hacc])
       have hed : exitDisp s1 = af.d := by
         simp only [exitDisp, h1dset, hds, ↓reduceIte, h1disp]; omega
-      refine ⟨{ tid := i, depth := exitDisp s1, time := r.time, dur := r.time - af.time, addr := af.addr,
+      refine ⟨{ tid := i, depth := exitDisp s1, time := r.time, dur := sub64 r.time af.time, addr := af.addr,
                 args := if (r.more && cfg.showArgs) = true then s1.args else 0 }, ?_, hm, ?_⟩
       · simp only [Bool.not_not, hm, ↓reduceIte]
       · simp [closes, ctxOf, hed]
@@ -1074,3 +1075,540 @@ theorem replay_handles_all (f : Fmt) : handles replayAdv f = true := by
   cases f <;> simp [handles, replayAdv]
 
 end Uft.Script.Args
+
+/-! ## refinement: this file's model of cmds/script.c against the script loop of the C07 model
+    (Uft/Model/Fstack.lean `stepC`), record by record -/
+namespace Uft.Script.Bridge
+open Uft.Fstack
+open Uft.Mcount (Call Calls evCall evCalls)
+
+/-- a record of the C07 / hook models as a record of this model -/
+def conv (r : Uft.Mcount.Rec) : Rec :=
+  { time := r.time, exit := r.type == 1, depth := r.depth, addr := r.addr }
+
+/-- the option set in the C07 model's terms: -F / -N table, -D, -t -/
+def toRCfg (cfg : Cfg) (thr : Nat) : RCfg :=
+  { depthOpt := cfg.depth, threshold := thr, optIn := cfg.modeIn, trig := fun a => { filter := cfg.filt a } }
+
+/-- a callback as the shown record of the C07 model: time, kind, function, display depth -/
+def cbRec : Cb → List Uft.Mcount.Rec
+  | .entry c => [{ time := c.time, type := 0, depth := c.depth, addr := c.addr }]
+  | .exit c => [{ time := c.time, type := 1, depth := c.depth, addr := c.addr }]
+  | _ => []
+
+def cbRecs (cbs : List Cb) : List Uft.Mcount.Rec := cbs.flatMap cbRec
+
+def frOf (f : Frame) : Fr :=
+  { origDepth := f.origDepth, filtered := f.filtered, notrace := f.notrace, norecord := f.norecord }
+
+/-- the list of entered calls of the C07 model is the array of this model below `stack_count` -/
+def StackRel (slots : Nat → Frame) : List Fr → Prop
+  | [] => True
+  | fr :: rest => frOf (slots rest.length) = fr ∧ StackRel slots rest
+
+structure Sim (cfg : Cfg) (st : TaskSt) (fs : FS) : Prop where
+  count : st.stackCount = fs.sc
+  len : fs.stack.length = fs.sc
+  started : st.started = fs.scSet
+  disp : st.disp = fs.dispDepth
+  dset : st.dispSet = fs.dispSet
+  inc : st.inCount = fs.inCount
+  outc : st.outCount = fs.outCount
+  depth : st.fdepth = fs.depth
+  fresh : st.started = false → st.fdepth = cfg.depth
+  en : fs.enabled = true
+  ss : fs.stack ≠ [] → fs.scSet = true
+  stack : StackRel st.slots fs.stack
+
+theorem StackRel_congr (s1 s2 : Nat → Frame) :
+    ∀ (l : List Fr), (∀ k, k < l.length → frOf (s1 k) = frOf (s2 k)) → StackRel s1 l → StackRel s2 l
+  | [], _, _ => trivial
+  | fr :: rest, h, ok => by
+    have hk := h rest.length (by simp)
+    simp only [StackRel] at ok ⊢
+    rw [← hk]
+    exact ⟨ok.1, StackRel_congr s1 s2 rest (fun k hk' => h k (by simp; omega)) ok.2⟩
+
+/-- read_rstack touches addr / total_time / valid only: the filter part of every frame stays -/
+theorem frOf_consume (cfg : Cfg) (st : TaskSt) (r : Rec) (k : Nat) :
+    frOf ((consume cfg st r).slots k) = frOf (st.slots k) := by
+  show frOf (lookupL _ (accountSlots (startCount st r) (startSlots st r) r) k) = _
+  rw [lookupL_range]
+  have hs : ∀ j, frOf (startSlots st r j) = frOf (st.slots j) := by
+    intro j
+    unfold startSlots
+    split
+    · rfl
+    · split <;> rfl
+  unfold accountSlots
+  split
+  · split
+    · exact hs k
+    · simp only [setSlot]
+      split
+      · rename_i e; subst e; simp only [frOf]; exact hs _
+      · exact hs k
+  · simp only [setSlot]
+    split
+    · rename_i e; subst e; simp only [frOf]; exact hs _
+    · exact hs k
+
+theorem sim_init (cfg : Cfg) (hd : cfg.dispSet0 = true) (thr : Nat) :
+    Sim cfg (TaskSt.fresh cfg) (FS.init (toRCfg cfg thr)) :=
+  { count := rfl, len := rfl, started := rfl, disp := rfl,
+    dset := by simp [TaskSt.fresh, FS.init, toRCfg, hd]
+    inc := rfl, outc := rfl, depth := rfl, fresh := fun _ => rfl, en := rfl, ss := fun h => absurd rfl h,
+    stack := trivial }
+
+/-- the state of the C07 script loop after a list of records -/
+def endC (c : RCfg) : FS → List Uft.Mcount.Rec → FS
+  | s, [] => s
+  | s, r :: rest => endC c (stepC c s r).1 rest
+
+/-- fstack_entry's verdict in the C07 model, in the terms of this model's tests (the two automata
+    take the same decision when their counters agree) -/
+theorem verdict_eq (cfg : Cfg) (thr : Nat) (s1 : TaskSt) (fa : FS) (r : Rec)
+    (hi : s1.inCount = fa.inCount) (ho : s1.outCount = fa.outCount) (hdp : s1.fdepth = fa.depth)
+    (hen : fa.enabled = true) :
+    verdict (toRCfg cfg thr) fa r.addr =
+      if eOut s1 then .outRegion else if eNotrace cfg s1 r then .notrace else if eMode cfg s1 r then .optOut
+      else if fdepth1 cfg s1 r = 0 then .depthOut else .accept := by
+  unfold verdict eOut eNotrace eMode fdepth1 eIn eOut
+  simp only [toRCfg, locReject, enAfter, depthAfter, isIn, hen, ← hi, ← ho, ← hdp]
+  by_cases h1 : s1.outCount > 0
+  · simp [h1]
+  · simp only [h1, ↓reduceIte, decide_false, Bool.not_false, Bool.true_and]
+    rcases hfl : cfg.filt r.addr with _ | (_ | _)
+    · by_cases h3 : cfg.modeIn = true ∧ s1.inCount = 0
+      · simp [h3.1, h3.2]
+      · by_cases hm : cfg.modeIn = true
+        · have : s1.inCount ≠ 0 := fun e => h3 ⟨hm, e⟩
+          simp [hm, this]
+        · simp [hm]
+    · simp
+    · simp
+
+theorem verdict_facts (cfg : Cfg) (thr : Nat) (s1 : TaskSt) (fa : FS) (r : Rec)
+    (hi : s1.inCount = fa.inCount) (ho : s1.outCount = fa.outCount) (hdp : s1.fdepth = fa.depth)
+    (hen : fa.enabled = true) :
+    (verdict (toRCfg cfg thr) fa r.addr == Verdict.accept) = accepted cfg s1 r ∧
+    ((verdict (toRCfg cfg thr) fa r.addr).matched && isIn ((toRCfg cfg thr).trig r.addr)) = eIn cfg s1 r ∧
+    (verdict (toRCfg cfg thr) fa r.addr == Verdict.notrace) = eNotrace cfg s1 r ∧
+    (verdict (toRCfg cfg thr) fa r.addr).norecord = !accepted cfg s1 r ∧
+    ((verdict (toRCfg cfg thr) fa r.addr).late = true →
+      depthAfter (toRCfg cfg thr) fa ((toRCfg cfg thr).trig r.addr) = fdepth1 cfg s1 r) ∧
+    ((verdict (toRCfg cfg thr) fa r.addr).late = false → eIn cfg s1 r = false ∧ accepted cfg s1 r = false) ∧
+    ((verdict (toRCfg cfg thr) fa r.addr).late = true → accepted cfg s1 r = false → fdepth1 cfg s1 r = 0) := by
+  rw [verdict_eq cfg thr s1 fa r hi ho hdp hen]
+  unfold accepted eMode eNotrace fdepth1 eIn eOut
+  simp only [toRCfg, depthAfter, isIn, ← hdp]
+  by_cases h1 : s1.outCount > 0
+  · simp [h1, Verdict.matched, Verdict.norecord, Verdict.late]
+  · simp only [h1, ↓reduceIte, decide_false, Bool.not_false, Bool.true_and]
+    rcases hfl : cfg.filt r.addr with _ | (_ | _)
+    · by_cases hm : cfg.modeIn = true <;> by_cases hz : s1.inCount = 0 <;> by_cases hd0 : s1.fdepth = 0 <;>
+        simp [hm, hz, hd0, Verdict.matched, Verdict.norecord, Verdict.late]
+    · simp [Verdict.matched, Verdict.norecord, Verdict.late]
+    · by_cases hd0 : cfg.depth = 0 <;> simp [hd0, Verdict.matched, Verdict.norecord, Verdict.late]
+
+theorem account_entry (fs : FS) (r : Uft.Mcount.Rec) (ht : r.type = 0) (hd : r.depth = fs.sc) :
+    account fs r = { fs with sc := fs.sc + 1, scSet := true } := by
+  unfold account
+  simp only [ht, Nat.not_succ_le_zero, ↓reduceIte, Nat.zero_ne_one, ge_iff_le, show ¬ (2 ≤ 0) by omega]
+  cases fs.scSet <;> simp [hd]
+
+theorem account_exit (fs : FS) (r : Uft.Mcount.Rec) (ht : r.type = 1) (hs : fs.scSet = true) :
+    account fs r = { fs with sc := fs.sc - 1, scSet := true } := by
+  unfold account
+  simp [ht, hs]
+
+/-- ENTRY: both script loops make the same step -/
+theorem entry_sim (cfg : Cfg) (thr i : Nat) (hf : cfg.funcs = []) (st : TaskSt) (fs : FS) (sim : Sim cfg st fs)
+    (r : Uft.Mcount.Rec) (ht : r.type = 0) (hd : r.depth = fs.sc) :
+    Sim cfg (scriptTask cfg i st (conv r)).1 (stepC (toRCfg cfg thr) fs r).1 ∧
+    cbRecs (scriptTask cfg i st (conv r)).2 = (stepC (toRCfg cfg thr) fs r).2 ∧
+    ∃ fr, (stepC (toRCfg cfg thr) fs r).1.stack = fr :: fs.stack := by
+  have hx : (conv r).exit = false := by simp [conv, ht]
+  have hcd : (conv r).depth = fs.sc := hd
+  have hsc : startCount st (conv r) = fs.sc := by
+    unfold startCount firstCount
+    cases hs : st.started
+    · simp [hx, hcd]
+    · simp [sim.count]
+  have h1c : (consume cfg st (conv r)).stackCount = fs.sc + 1 := by
+    show newCount (startCount st (conv r)) (conv r) = _
+    simp [newCount, hx, hsc]
+  have h1fd : (consume cfg st (conv r)).fdepth = fs.depth := by
+    show (if st.started = true then st.fdepth else cfg.depth) = _
+    cases hs : st.started
+    · simp only [Bool.false_eq_true, ↓reduceIte]; rw [← sim.fresh hs]; exact sim.depth
+    · simp only [↓reduceIte]; exact sim.depth
+  have h1disp : (consume cfg st (conv r)).disp = fs.dispDepth := sim.disp
+  have h1dset : (consume cfg st (conv r)).dispSet = fs.dispSet := sim.dset
+  have h1in : (consume cfg st (conv r)).inCount = fs.inCount := sim.inc
+  have h1out : (consume cfg st (conv r)).outCount = fs.outCount := sim.outc
+  have h1started : (consume cfg st (conv r)).started = true := rfl
+  have h1fr := frOf_consume cfg st (conv r)
+  have hst : (scriptTask cfg i st (conv r)).1 = scriptEntrySt cfg (consume cfg st (conv r)) (conv r) := by
+    unfold scriptTask; simp [hx]
+  have hout : (scriptTask cfg i st (conv r)).2 = scriptEntryCb cfg i (consume cfg st (conv r)) (conv r) := by
+    unfold scriptTask; simp [hx]
+  rw [hst, hout]
+  generalize consume cfg st (conv r) = s1 at h1c h1fd h1disp h1dset h1in h1out h1started h1fr ⊢
+  -- the C07 side
+  have ha := account_entry fs r ht hd
+  have hplt : isPlt (toRCfg cfg thr) r = false := rfl
+  have hC : stepC (toRCfg cfg thr) fs r =
+      (if (fsEntry (toRCfg cfg thr) { fs with sc := fs.sc + 1, scSet := true } r.addr).2 = true then
+        (updEntry (fsEntry (toRCfg cfg thr) { fs with sc := fs.sc + 1, scSet := true } r.addr).1,
+         [shown r (fsEntry (toRCfg cfg thr) { fs with sc := fs.sc + 1, scSet := true } r.addr).1.dispDepth])
+       else ((fsEntry (toRCfg cfg thr) { fs with sc := fs.sc + 1, scSet := true } r.addr).1, [])) := by
+    unfold stepC
+    simp only [hplt, Bool.false_eq_true, ↓reduceIte, ha, ht]
+  rw [hC]
+  have F := verdict_facts cfg thr s1 { fs with sc := fs.sc + 1, scSet := true } (conv r) h1in h1out h1fd sim.en
+  have haddr : (conv r).addr = r.addr := rfl
+  rw [haddr] at F
+  simp only [fsEntry]
+  generalize hv : verdict (toRCfg cfg thr) { fs with sc := fs.sc + 1, scSet := true } r.addr = v at F ⊢
+  obtain ⟨Facc, Fin, Fnt, Fnr, Flate, Fnl, Fz⟩ := F
+  -- the frame both automata write
+  have hslot : ∀ k, k < fs.stack.length → frOf ((fstackEntry cfg s1 (conv r)).slots k) = frOf (st.slots k) := by
+    intro k hk
+    show frOf (setSlot s1.slots (s1.stackCount - 1) _ k) = _
+    have : k ≠ fs.sc := by have := sim.len; omega
+    simp only [setSlot, h1c, Nat.add_sub_cancel, this, ↓reduceIte]
+    exact h1fr k
+  have htop : frOf ((fstackEntry cfg s1 (conv r)).slots fs.stack.length) =
+      { origDepth := fs.depth, filtered := eIn cfg s1 (conv r), notrace := eNotrace cfg s1 (conv r),
+        norecord := !accepted cfg s1 (conv r) } := by
+    show frOf (setSlot s1.slots (s1.stackCount - 1) _ fs.stack.length) = _
+    simp [setSlot, h1c, sim.len, frOf, h1fd]
+  have hstack : StackRel (fstackEntry cfg s1 (conv r)).slots
+      ({ origDepth := fs.depth, filtered := v.matched && isIn ((toRCfg cfg thr).trig r.addr), notrace := v == .notrace,
+         norecord := v.norecord } :: fs.stack) := by
+    simp only [StackRel]
+    refine ⟨?_, StackRel_congr st.slots _ fs.stack (fun k hk => (hslot k hk).symm) sim.stack⟩
+    rw [htop, Fin, Fnt, Fnr]
+  have e2in : (fstackEntry cfg s1 (conv r)).inCount =
+      (if (v.matched && isIn ((toRCfg cfg thr).trig r.addr)) = true then fs.inCount + 1 else fs.inCount) := by
+    show (if eIn cfg s1 (conv r) = true then s1.inCount + 1 else s1.inCount) = _
+    rw [Fin, h1in]
+  have e2out : (fstackEntry cfg s1 (conv r)).outCount = (if v = Verdict.notrace then fs.outCount + 1 else fs.outCount) := by
+    show (if eNotrace cfg s1 (conv r) = true then s1.outCount + 1 else s1.outCount) = _
+    rw [← Fnt, h1out]
+    by_cases e : v = Verdict.notrace <;> simp [e]
+  have hvacc : (v = Verdict.accept) ↔ accepted cfg s1 (conv r) = true := by
+    rw [← Facc]; simp
+  have e2depth : (fstackEntry cfg s1 (conv r)).fdepth =
+      (if v.late = true then
+        (if v = Verdict.accept then depthAfter (toRCfg cfg thr) { fs with sc := fs.sc + 1, scSet := true } ((toRCfg cfg thr).trig r.addr) - 1
+         else depthAfter (toRCfg cfg thr) { fs with sc := fs.sc + 1, scSet := true } ((toRCfg cfg thr).trig r.addr))
+       else if (v.matched && isIn ((toRCfg cfg thr).trig r.addr)) = true then (toRCfg cfg thr).depthOpt else fs.depth) := by
+    show (if accepted cfg s1 (conv r) = true then fdepth1 cfg s1 (conv r) - 1 else fdepth1 cfg s1 (conv r)) = _
+    cases hl : v.late
+    · have := Fnl hl
+      simp only [Bool.false_eq_true, ↓reduceIte, Fin, this.1, this.2]
+      simp [fdepth1, this.1, h1fd]
+    · simp only [↓reduceIte, Flate hl]
+      by_cases e : v = Verdict.accept
+      · simp [e, hvacc.mp e]
+      · have : accepted cfg s1 (conv r) = false := by
+          cases h : accepted cfg s1 (conv r)
+          · rfl
+          · exact absurd (hvacc.mpr h) e
+        simp [e, this]
+  have e2dset : (fstackEntry cfg s1 (conv r)).dispSet = (if v = Verdict.accept then true else fs.dispSet) := by
+    show (s1.dispSet || accepted cfg s1 (conv r)) = _
+    rw [h1dset]
+    by_cases e : v = Verdict.accept
+    · simp [e, hvacc.mp e]
+    · have : accepted cfg s1 (conv r) = false := by
+        cases h : accepted cfg s1 (conv r)
+        · rfl
+        · exact absurd (hvacc.mpr h) e
+      simp [e, this]
+  have e2disp : (fstackEntry cfg s1 (conv r)).disp =
+      (if (decide (v = Verdict.accept) && !fs.dispSet) = true then fs.sc + 1 - 1 else fs.dispDepth) := by
+    show (if (accepted cfg s1 (conv r) && !s1.dispSet) = true then s1.stackCount - 1 else s1.disp) = _
+    rw [h1dset, h1c, h1disp]
+    by_cases e : v = Verdict.accept
+    · simp [e, hvacc.mp e]
+    · have : accepted cfg s1 (conv r) = false := by
+        cases h : accepted cfg s1 (conv r)
+        · rfl
+        · exact absurd (hvacc.mpr h) e
+      simp [e, this]
+  have hto : (toRCfg cfg thr).trig r.addr = ({ filter := cfg.filt r.addr } : Uft.Mcount.Trigger) := rfl
+  have hoff : ((toRCfg cfg thr).trig r.addr).traceOff = false := rfl
+  unfold scriptEntrySt scriptEntryCb
+  simp only [matchFuncs_nil cfg hf, Bool.and_true, hoff, Bool.and_false, Bool.false_eq_true, ↓reduceIte]
+  cases hacc : accepted cfg s1 (conv r)
+  · have hne : ¬ (v = Verdict.accept) := fun e => by have := hvacc.mp e; rw [hacc] at this; exact absurd this (by simp)
+    have hb : (v == Verdict.accept) = false := by simp [hne]
+    simp only [hb, Bool.false_eq_true, ↓reduceIte, cbRecs, List.flatMap_nil, true_and]
+    refine ⟨?_, _, rfl⟩
+    exact {
+      count := h1c
+      len := by simp [sim.len]
+      started := h1started
+      disp := by rw [e2disp]; try simp [hne]
+      dset := by rw [e2dset]; try simp [hne]
+      inc := e2in
+      outc := e2out
+      depth := e2depth
+      fresh := by intro h; rw [show (fstackEntry cfg s1 (conv r)).started = s1.started from rfl, h1started] at h; exact absurd h (by simp)
+      en := by
+        show (if v.late = true then enAfter ((toRCfg cfg thr).trig r.addr) fs.enabled else fs.enabled) = true
+        simp [enAfter, hto, sim.en]
+      ss := fun _ => rfl
+      stack := hstack }
+  · have he : v = Verdict.accept := hvacc.mpr hacc
+    have hb : (v == Verdict.accept) = true := by simp [he]
+    simp only [hb, ↓reduceIte, cbRecs, List.flatMap_cons, List.flatMap_nil, List.append_nil, cbRec]
+    refine ⟨?_, ?_, _, rfl⟩
+    · exact {
+        count := h1c
+        len := by simp [sim.len, updEntry]
+        started := h1started
+        disp := by
+          show (fstackEntry cfg s1 (conv r)).disp + 1 = _
+          rw [e2disp]; simp [he, updEntry]
+        dset := by
+          show (fstackEntry cfg s1 (conv r)).dispSet = _
+          rw [e2dset]; simp [he, updEntry]
+        inc := e2in
+        outc := e2out
+        depth := e2depth
+        fresh := by intro h; rw [show (updateEntry (fstackEntry cfg s1 (conv r))).started = s1.started from rfl, h1started] at h; exact absurd h (by simp)
+        en := by
+          show (if v.late = true then enAfter ((toRCfg cfg thr).trig r.addr) fs.enabled else fs.enabled) = true
+          simp [enAfter, hto, sim.en]
+        ss := fun _ => rfl
+        stack := hstack }
+    · rw [e2disp]
+      simp [shown, conv, he, ht]
+
+/-- EXIT of a call this reader has entered: both script loops make the same step -/
+theorem exit_sim (cfg : Cfg) (thr i : Nat) (hf : cfg.funcs = []) (st : TaskSt) (fs : FS) (sim : Sim cfg st fs)
+    (r : Uft.Mcount.Rec) (ht : r.type = 1) (fr : Fr) (rest : List Fr) (hstk : fs.stack = fr :: rest) :
+    Sim cfg (scriptTask cfg i st (conv r)).1 (stepC (toRCfg cfg thr) fs r).1 ∧
+    cbRecs (scriptTask cfg i st (conv r)).2 = (stepC (toRCfg cfg thr) fs r).2 ∧
+    (stepC (toRCfg cfg thr) fs r).1.stack = rest := by
+  have hx : (conv r).exit = true := by simp [conv, ht]
+  have hscset : fs.scSet = true := sim.ss (by rw [hstk]; simp)
+  have hstarted : st.started = true := by rw [sim.started]; exact hscset
+  have hlen : fs.sc = rest.length + 1 := by have := sim.len; rw [hstk] at this; simpa using this.symm
+  have hsr := sim.stack
+  rw [hstk] at hsr
+  simp only [StackRel] at hsr
+  have hsc : startCount st (conv r) = rest.length + 1 := by simp [startCount, hstarted, sim.count, hlen]
+  have h1c : (consume cfg st (conv r)).stackCount = rest.length := by
+    show newCount (startCount st (conv r)) (conv r) = _
+    simp [newCount, hx, hsc]
+  have h1fd : (consume cfg st (conv r)).fdepth = fs.depth := by
+    show (if st.started = true then st.fdepth else cfg.depth) = _
+    simp only [hstarted, ↓reduceIte]; exact sim.depth
+  have h1disp : (consume cfg st (conv r)).disp = fs.dispDepth := sim.disp
+  have h1dset : (consume cfg st (conv r)).dispSet = fs.dispSet := sim.dset
+  have h1in : (consume cfg st (conv r)).inCount = fs.inCount := sim.inc
+  have h1out : (consume cfg st (conv r)).outCount = fs.outCount := sim.outc
+  have h1started : (consume cfg st (conv r)).started = true := rfl
+  have h1fr := frOf_consume cfg st (conv r)
+  have hst : (scriptTask cfg i st (conv r)).1 = scriptExitSt (consume cfg st (conv r)) := by
+    unfold scriptTask; simp [hx]
+  have hout : (scriptTask cfg i st (conv r)).2 = scriptExitCb cfg i (consume cfg st (conv r)) (conv r) := by
+    unfold scriptTask; simp [hx]
+  rw [hst, hout]
+  generalize consume cfg st (conv r) = s1 at h1c h1fd h1disp h1dset h1in h1out h1started h1fr ⊢
+  have htopfr : frOf (s1.slots s1.stackCount) = fr := by rw [h1c, h1fr]; exact hsr.1
+  have hnr : (s1.slots s1.stackCount).norecord = fr.norecord := by rw [← htopfr]; rfl
+  have hfl : (s1.slots s1.stackCount).filtered = fr.filtered := by rw [← htopfr]; rfl
+  have hnt : (s1.slots s1.stackCount).notrace = fr.notrace := by rw [← htopfr]; rfl
+  have hod : (s1.slots s1.stackCount).origDepth = fr.origDepth := by rw [← htopfr]; rfl
+  -- the C07 side
+  have ha := account_exit fs r ht hscset
+  have hplt : isPlt (toRCfg cfg thr) r = false := rfl
+  have htop : topFr (toRCfg cfg thr) { fs with sc := fs.sc - 1, scSet := true } = fr := by
+    simp [topFr, hstk]
+  have hC : stepC (toRCfg cfg thr) fs r = exitStep (toRCfg cfg thr) { fs with sc := fs.sc - 1, scSet := true } r false := by
+    unfold stepC
+    simp only [hplt, Bool.false_eq_true, ↓reduceIte, ha, ht, Nat.succ_ne_zero, Nat.one_ne_zero]
+  rw [hC]
+  unfold exitStep
+  rw [htop]
+  simp only [sim.en, Bool.not_true, Bool.or_false]
+  -- what fstack_exit does to the state, with or without fstack_update
+  have hrestSlots : ∀ (s : TaskSt), s.stackCount = rest.length → s.slots = s1.slots →
+      StackRel (fstackExit s).slots rest := by
+    intro s hc hs
+    apply StackRel_congr st.slots _ rest _ hsr.2
+    intro k hk
+    show frOf (st.slots k) = frOf (setSlot s.slots s.stackCount _ k)
+    rw [hc, hs]
+    simp only [setSlot]
+    rw [if_neg (by omega), h1fr k]
+  unfold scriptExitSt scriptExitCb
+  simp only [matchFuncs_nil cfg hf, Bool.and_true, hnr]
+  cases hn : fr.norecord
+  · -- shown
+    simp only [Bool.not_false, Bool.false_eq_true, ↓reduceIte, cbRecs, List.flatMap_cons, List.flatMap_nil,
+      List.append_nil, cbRec]
+    refine ⟨?_, ?_, by simp [fsExit, updExit, hstk]⟩
+    · exact {
+        count := by show s1.stackCount = fs.sc - 1; rw [h1c, hlen]; simp
+        len := by simp [fsExit, updExit, hstk, hlen]
+        started := h1started
+        disp := by
+          show exitDisp s1 = _
+          simp [exitDisp, updExit, fsExit, h1dset, h1disp, h1c, hlen]
+        dset := rfl
+        inc := by
+          show (if (s1.slots s1.stackCount).filtered = true then s1.inCount - 1 else s1.inCount) = _
+          simp [fsExit, updExit, topFr, hstk, hfl, h1in]
+        outc := by
+          show (if (!(s1.slots s1.stackCount).filtered && (s1.slots s1.stackCount).notrace) = true then s1.outCount - 1
+                else s1.outCount) = _
+          simp [fsExit, updExit, topFr, hstk, hfl, hnt, h1out]
+        depth := by
+          show (s1.slots s1.stackCount).origDepth = _
+          simp [fsExit, updExit, topFr, hstk, hod]
+        fresh := by
+          intro h
+          rw [show (fstackExit (updateExit s1)).started = s1.started from rfl, h1started] at h
+          exact absurd h (by simp)
+        en := by simp [fsExit, updExit, sim.en]
+        ss := fun _ => rfl
+        stack := by
+          have := hrestSlots (updateExit s1) h1c rfl
+          simpa [fsExit, updExit, hstk] using this }
+    · simp [shown, conv, ht, exitDisp, updExit, h1dset, h1disp, h1c, hlen]
+  · -- NORECORD: nothing shown, no fstack_update
+    simp only [Bool.not_true, Bool.false_eq_true, ↓reduceIte, cbRecs, List.flatMap_nil]
+    refine ⟨?_, trivial, by simp [fsExit, hstk]⟩
+    exact {
+      count := by show s1.stackCount = fs.sc - 1; rw [h1c, hlen]; simp
+      len := by simp [fsExit, hstk, hlen]
+      started := h1started
+      disp := by show s1.disp = _; simp [fsExit, h1disp]
+      dset := by show s1.dispSet = _; simp [fsExit, h1dset]
+      inc := by
+        show (if (s1.slots s1.stackCount).filtered = true then s1.inCount - 1 else s1.inCount) = _
+        simp [fsExit, topFr, hstk, hfl, h1in]
+      outc := by
+        show (if (!(s1.slots s1.stackCount).filtered && (s1.slots s1.stackCount).notrace) = true then s1.outCount - 1
+              else s1.outCount) = _
+        simp [fsExit, topFr, hstk, hfl, hnt, h1out]
+      depth := by
+        show (s1.slots s1.stackCount).origDepth = _
+        simp [fsExit, topFr, hstk, hod]
+      fresh := by
+        intro h
+        rw [show (fstackExit s1).started = s1.started from rfl, h1started] at h
+        exact absurd h (by simp)
+      en := by simp [fsExit, sim.en]
+      ss := fun _ => rfl
+      stack := by
+        have := hrestSlots s1 h1c rfl
+        simpa [fsExit, hstk] using this }
+
+theorem taskRun_append (cfg : Cfg) (i : Nat) : ∀ (a b : List Rec) (st : TaskSt),
+    taskRun cfg i st (a ++ b) =
+      ((taskRun cfg i (taskRun cfg i st a).1 b).1, (taskRun cfg i st a).2 ++ (taskRun cfg i (taskRun cfg i st a).1 b).2)
+  | [], b, st => by simp [taskRun]
+  | r :: a, b, st => by
+    simp only [List.cons_append, taskRun, taskRun_append cfg i a b, List.append_assoc]
+
+theorem endC_append (c : RCfg) : ∀ (a b : List Uft.Mcount.Rec) (s : FS), endC c s (a ++ b) = endC c (endC c s a) b
+  | [], _, _ => rfl
+  | r :: a, b, s => by simp only [List.cons_append, endC, endC_append c a b]
+
+theorem runSteps_append (c : RCfg) : ∀ (a b : List Uft.Mcount.Rec) (s : FS),
+    runSteps (stepC c) s (a ++ b) = runSteps (stepC c) s a ++ runSteps (stepC c) (endC c s a) b
+  | [], _, _ => rfl
+  | r :: a, b, s => by simp only [List.cons_append, runSteps, endC, runSteps_append c a b, List.append_assoc]
+
+theorem cbRecs_append (a b : List Cb) : cbRecs (a ++ b) = cbRecs a ++ cbRecs b := by simp [cbRecs]
+
+/-- what the simulation gives for a stretch of records -/
+structure SimRun (cfg : Cfg) (thr i : Nat) (st : TaskSt) (fs : FS) (rs : List Uft.Mcount.Rec) : Prop where
+  sim : Sim cfg (taskRun cfg i st (rs.map conv)).1 (endC (toRCfg cfg thr) fs rs)
+  out : cbRecs (taskRun cfg i st (rs.map conv)).2 = runSteps (stepC (toRCfg cfg thr)) fs rs
+  stack : (endC (toRCfg cfg thr) fs rs).stack = fs.stack
+
+theorem Sim.sc_of_stack {cfg : Cfg} {st st' : TaskSt} {fs fs' : FS} (a : Sim cfg st fs) (b : Sim cfg st' fs')
+    (h : fs'.stack = fs.stack) : fs'.sc = fs.sc := by
+  rw [← a.len, ← b.len, h]
+
+mutual
+  /-- a complete call: the two script loops stay in step and the entered-call stack is restored -/
+  theorem sim_call (cfg : Cfg) (thr i : Nat) (hf : cfg.funcs = []) :
+      ∀ (x : Call) (st : TaskSt) (fs : FS), Sim cfg st fs → SimRun cfg thr i st fs (evCall fs.sc x)
+    | .node f t0 t1 kids, st, fs, sim => by
+      have hE := entry_sim cfg thr i hf st fs sim { time := t0, type := 0, depth := fs.sc, addr := f } rfl rfl
+      obtain ⟨sim1, out1, fr, hstk1⟩ := hE
+      have hsc1 : (stepC (toRCfg cfg thr) fs { time := t0, type := 0, depth := fs.sc, addr := f }).1.sc = fs.sc + 1 := by
+        rw [← sim1.len, hstk1, List.length_cons, sim.len]
+      have hK := sim_calls cfg thr i hf kids _ _ sim1
+      rw [hsc1] at hK
+      have hstk2 := hK.stack
+      rw [hstk1] at hstk2
+      have hX := exit_sim cfg thr i hf _ _ hK.sim { time := t1, type := 1, depth := fs.sc, addr := f } rfl fr fs.stack hstk2
+      obtain ⟨sim3, out3, hstk3⟩ := hX
+      have hev : evCall fs.sc (.node f t0 t1 kids) =
+          [{ time := t0, type := 0, depth := fs.sc, addr := f }] ++ (evCalls (fs.sc + 1) kids ++
+          [{ time := t1, type := 1, depth := fs.sc, addr := f }]) := by
+        simp [evCall, List.append_assoc]
+      rw [hev]
+      refine ⟨?_, ?_, ?_⟩
+      · simp only [List.map_append, List.map_cons, List.map_nil, taskRun_append, endC_append]
+        simpa [taskRun, endC] using sim3
+      · simp only [List.map_append, List.map_cons, List.map_nil, taskRun_append, runSteps_append, cbRecs_append]
+        have o1 : cbRecs (taskRun cfg i st [conv { time := t0, type := 0, depth := fs.sc, addr := f }]).2 =
+            runSteps (stepC (toRCfg cfg thr)) fs [{ time := t0, type := 0, depth := fs.sc, addr := f }] := by
+          simpa [taskRun, runSteps] using out1
+        have e1 : (taskRun cfg i st [conv { time := t0, type := 0, depth := fs.sc, addr := f }]).1 =
+            (scriptTask cfg i st (conv { time := t0, type := 0, depth := fs.sc, addr := f })).1 := by simp [taskRun]
+        have f1 : endC (toRCfg cfg thr) fs [{ time := t0, type := 0, depth := fs.sc, addr := f }] =
+            (stepC (toRCfg cfg thr) fs { time := t0, type := 0, depth := fs.sc, addr := f }).1 := rfl
+        rw [o1, e1, f1, hK.out]
+        congr 2
+        simpa [taskRun, runSteps] using out3
+      · simp only [endC_append]
+        simpa [endC] using hstk3
+  theorem sim_calls (cfg : Cfg) (thr i : Nat) (hf : cfg.funcs = []) :
+      ∀ (xs : Calls) (st : TaskSt) (fs : FS), Sim cfg st fs → SimRun cfg thr i st fs (evCalls fs.sc xs)
+    | .nil, st, fs, sim => by
+      simp only [evCalls]
+      exact ⟨by simpa [taskRun, endC] using sim, by simp [taskRun, runSteps, cbRecs], rfl⟩
+    | .cons x rest, st, fs, sim => by
+      have h1 := sim_call cfg thr i hf x st fs sim
+      have hsc : (endC (toRCfg cfg thr) fs (evCall fs.sc x)).sc = fs.sc := Sim.sc_of_stack sim h1.sim h1.stack
+      have h2 := sim_calls cfg thr i hf rest _ _ h1.sim
+      rw [hsc] at h2
+      simp only [evCalls]
+      refine ⟨?_, ?_, ?_⟩
+      · simp only [List.map_append, taskRun_append, endC_append]; exact h2.sim
+      · simp only [List.map_append, taskRun_append, runSteps_append, cbRecs_append]; rw [h1.out, h2.out]
+      · simp only [endC_append]; rw [h2.stack, h1.stack]
+end
+
+/-- **Refinement.**  For every option set of this model (-F / -N table, -D), on the records of
+    every call forest — after any look-ahead, so also under -t — the callbacks this model's
+    script loop makes are exactly the records the script loop of the C07 model accepts: time,
+    kind, function and display depth. -/
+theorem script_refines_c07 (cfg : Cfg) (thr i : Nat) (hf : cfg.funcs = []) (hd : cfg.dispSet0 = true) (xs : Calls) :
+    cbRecs (taskRun cfg i (TaskSt.fresh cfg) ((evCalls 0 xs).map conv)).2 =
+      runSteps (stepC (toRCfg cfg thr)) (FS.init (toRCfg cfg thr)) (evCalls 0 xs) :=
+  (sim_calls cfg thr i hf xs _ _ (sim_init cfg hd thr)).out
+
+/-- the main loop over a stream of one task is that task's run -/
+theorem runWith_single (cfg : Cfg) (i : Nat) : ∀ (rs : List Rec) (g : G),
+    (runWith (scriptTask cfg) g (rs.map fun r => (i, r))).2 = (taskRun cfg i (g i) rs).2
+  | [], _ => rfl
+  | r :: rs, g => by
+    simp only [List.map_cons, runWith, taskRun]
+    rw [runWith_single cfg i rs]
+    simp [upd]
+
+end Uft.Script.Bridge
